@@ -74,6 +74,7 @@ const (
 	NotAllowedToOverrideTheProperty                     = "it is not allowed to override the %q property from the user type %q"                                                                                                            //nolint:lll
 	ContextNotClosed                                    = "this opening parenthesis is not closed, learn more about the explicit direcitve boundaries here: https://jsight.io/docs/jsight-api-0-3#boundaries-of-the-body-of-the-directive" //nolint:lll
 	ContextAlreadyOpened                                = "the context of this directive has already been opened with a parenthesis"
+	RegexExampleCannotBeGenerated                       = "an example cannot be generated for the regular expression"
 	WrongDescriptionContext                             = "wrong description context"
 	MethodIsAlreadyDefinedInResource                    = "this method has already been defined in the resource"
 	UndefinedRequestBodyForResource                     = "undefined request body for resource"
